@@ -67,6 +67,11 @@ def gen_history(rng, gg):
                 mus.append(("exclude", k, rng.randrange(k + 1, n)))
             else:
                 mus.append(("flag", k, True))
+    if rng.random() < 0.3:
+        # the same rule extended several times in a row (each `=/` must take effect, not only the first)
+        k = rng.randrange(n)
+        alph = [x for x in sorted(G.alphabet_of(gr) or "ab") if x.isascii() and x.isalnum()] or ["b"]
+        mus += [("extend_text", k, ("lit", rng.choice(alph), False)) for _ in range(rng.randint(2, 3))]
     return gr, strings, mus
 
 
@@ -119,6 +124,10 @@ def run_history(P, gr, strings, mus, warm=True):
 
 
 CORPUS = [
+    ([("r0", ("rep", 1, None, ("ref", 1)), None), ("r1", ("lit", "a", False), None)], ["abc", "cab", "abca", "bca"],
+     [("extend_text", 1, ("lit", "b", False)), ("extend_text", 1, ("lit", "c", False))]),
+    ([("r0", ("rep", 0, None, ("ref", 1)), None), ("r1", ("alt", [("lit", "a", False), ("lit", "aa", False)], False), None)], ["aabc", "abcb", "cc"],
+     [("extend_text", 1, ("lit", "b", False)), ("flag", 1, False), ("extend_text", 1, ("lit", "c", False)), ("extend_text", 1, ("lit", "bc", False))]),
     ([("r0", ("rep", 1, None, ("ref", 1)), None), ("r1", ("alt", [("lit", "a", False), ("lit", "b", False)], False), None)],
      ["abc", "cab", "abca"], [("extend_text", 1, ("lit", "c", False))]),
     ([("r0", ("rep", 0, None, ("ref", 1)), None), ("r1", ("lit", "a", False), None)], ["aab", "bb", "ab"],
